@@ -112,6 +112,9 @@ OpOk ==
               /\ aged' = IF hasSnap THEN DOMAIN des ELSE {}
               /\ After2(m', "STABLE")
          ELSE Same /\ Breach(<<"bulk insert of present keys", Ev.lo, Ev.hi, Ev.step>>)
+    [] Ev.op = "bulkdel" ->     \* scale runs: delete of every key lo, lo + step, .. <= hi, observed as one call
+         /\ m' = R!BulkWithout(Ev.lo, Ev.hi, Ev.step) /\ des' = R!Empty /\ aged' = {}
+         /\ After(m')
     [] Ev.op = "del" ->
          /\ m' = R!Without(m, Ev.k) /\ des' = R!Empty /\ aged' = {}
          /\ After(m')
@@ -197,7 +200,7 @@ ModelNext ==
 SameArena(A, B) == A.root = B.root /\ A.ucap = B.ucap /\ Len(A.nd) = Len(B.nd) /\ Len(A.free) = Len(B.free)
                    /\ (\A i \in 1..Len(A.nd) : A.nd[i] = B.nd[i]) /\ (\A i \in 1..Len(A.free) : A.free[i] = B.free[i])
 DriftCheck ==
-  hasSnap /\ Has("snap") /\ ~stale /\ Ev.out = "ok" /\ Ev.op # "bulk" /\ WellFormed(T) /\ PoolOK(T)
+  hasSnap /\ Has("snap") /\ ~stale /\ Ev.out = "ok" /\ Ev.op \notin {"bulk", "bulkdel"} /\ WellFormed(T) /\ PoolOK(T)
      => Drift(SameArena(ModelNext, T'), Ev.op)
 
 StepOp ==
